@@ -1,4 +1,89 @@
-import QipVerif.Model.QasmExport
-/-! C10 — property theorems (under construction) -/
+import QipVerif.Lemmas.QasmExportSem
+/-!
+# C10 — exported OpenQASM is valid OpenQASM 2.0 and denotes the same circuit
+
+Property theorems only.  `Export.exportCircuit` is the model of the exporter
+(`QasmOutput._qasm_output` … `_qasm_str`, tables regenerated from the source);
+`parseLines` / `acceptProgram` / `flatten` are the strict recogniser and the static semantics
+of OpenQASM 2.0 written from the language paper (`Model/QasmSpec.lean`).
+
+The full statement of the property ("every circuit is refused or exported as valid text with
+the same meaning") does not hold for the code: a measurement is exported without its `;`
+(`export_measure_counterexample`) and a parameter that Python prints without a decimal point
+(`1e-20`) is not a `real` of the standard (`export_exponent_counterexample`).  Both are
+recorded findings; `export_valid_partial` states the property on the remaining class.
+-/
 namespace QipVerif.C10
+open QipVerif.Qasm QipVerif.Qasm.Export
+
+/-- **Validity and meaning of the exported text (partial: class `GoodCircuit`).**
+For every circuit — any number of qubits, any length — whose operations are exportable gates
+(table `exportShape`) with the right numbers of controls / targets / parameters on distinct
+qubits of the register, every parameter printed as one numeric token of the standard and
+passing the exporter's presence test (scalars, lists, tuples, arrays), the exporter returns
+lines such that
+
+* every line is a statement of the strict recogniser and the whole text is the program `P`;
+* the header is present and the standard's static semantics accepts `P`
+  (registers declared, indices in range, qubits distinct, every gate declared — by
+  `qelib1.inc` or by an emitted definition — with the right arity);
+* under that semantics `P` is exactly the sequence of calls
+  `qasmName(params) controls++targets` of the circuit, on a register of `c.N` qubits. -/
+theorem export_valid_partial (c : Circuit) (hc : GoodCircuit c) :
+    ∃ lines P, exportCircuit c = .ok lines ∧ parseLines lines = some P ∧ headerOk P = true ∧
+      flatten P = .ok (finalEnv c, c.ops.filterMap flatOfOp) ∧ (finalEnv c).qregs.total = c.N ∧
+      acceptProgram lines = true := by
+  obtain ⟨lines, h1, h2⟩ := export_parse c hc
+  have h3 := flatten_programOf c hc
+  have h4 := headerOk_programOf c
+  refine ⟨lines, programOf c, h1, h2, h4, h3, rfl, ?_⟩
+  simp [acceptProgram, h2, h4, h3]
+
+/-- the class is not empty and contains the formerly defective inputs: `RX(0)`, a tuple-valued
+`QASMU`, `SQRTNOT`, controlled rotations, negative and large parameters -/
+example : GoodCircuit ⟨3, 0, [
+    .gate ⟨cs!"RX", some [0], none, .num ⟨false, cs!"0"⟩, none⟩,
+    .gate ⟨cs!"QASMU", some [2], none, .seq cs!"tuple" cs!"(0.1, 0.2, 0.3)"
+      [⟨false, cs!"0.1"⟩, ⟨true, cs!"0.0"⟩, ⟨false, cs!"1.5e+20"⟩], none⟩,
+    .gate ⟨cs!"SQRTNOT", some [1], none, .none, some []⟩,
+    .gate ⟨cs!"CRX", some [1], some [2], .num ⟨true, cs!"3.141592653589793"⟩, none⟩,
+    .gate ⟨cs!"TOFFOLI", some [0], some [2, 1], .none, none⟩]⟩ := by
+  intro op hop
+  simp only [List.mem_cons, List.not_mem_nil, or_false] at hop
+  rcases hop with rfl | rfl | rfl | rfl | rfl <;>
+    exact ⟨_, rfl, ⟨by decide, by decide, by decide, by decide, by decide, by decide, by decide⟩⟩
+
+/-- **Refusal.** A circuit containing a gate that has neither a QASM name nor an emitted
+definition is not exported: the exporter raises. -/
+theorem export_refuses (c : Circuit) (g : Gate) (hg : Op.gate g ∈ c.ops)
+    (hb : lookup Gen.gateNameToQasm g.name = none) (hd : lookup Gen.qasmDefns g.name = none) :
+    ∃ e, exportCircuit c = .error e := by
+  obtain ⟨e, he⟩ := defsLoop_refuses c.ops Gen.gateNameToQasm (fun k hk => Or.inl hk) g hg hb hd
+  exact ⟨e, by simp [exportCircuit, he]⟩
+
+example : ∃ e, exportCircuit ⟨2, 0, [.gate ⟨cs!"X", some [0], none, .none, none⟩,
+    .gate ⟨cs!"ISWAP", some [0, 1], none, .none, none⟩]⟩ = .error e :=
+  export_refuses _ ⟨cs!"ISWAP", some [0, 1], none, .none, none⟩ (by simp) (by decide) (by decide)
+
+/-- A classically controlled gate is refused as well. -/
+theorem export_refuses_classical :
+    exportCircuit ⟨1, 1, [.gate ⟨cs!"X", some [0], none, .none, some [0]⟩]⟩ = .error .notImpl := rfl
+
+/-! ### Counter-examples to the unrestricted statement (recorded findings) -/
+
+/-- A measurement is exported as `measure q[0] -> c[0]` — without the terminating `;`:
+the text is emitted (no refusal) and is not valid OpenQASM 2.0. -/
+theorem export_measure_counterexample :
+    ∃ lines, exportCircuit ⟨1, 1, [.meas [0] (some 0)]⟩ = .ok lines ∧
+      cs!"measure q[0] -> c[0]" ∈ lines ∧ parseLine cs!"measure q[0] -> c[0]" = none ∧
+      acceptProgram lines = false := by
+  refine ⟨_, rfl, by decide, by decide, by decide⟩
+
+/-- `RX(1e-20)`: Python prints the parameter as `1e-20`, which is not a `real` of the
+standard's grammar (a decimal point is mandatory); the text is emitted and rejected. -/
+theorem export_exponent_counterexample :
+    ∃ lines, exportCircuit ⟨1, 0, [.gate ⟨cs!"RX", some [0], none, .num ⟨false, cs!"1e-20"⟩, none⟩]⟩ = .ok lines ∧
+      cs!"rx(1e-20) q[0];" ∈ lines ∧ isNumToken cs!"1e-20" = false ∧ acceptProgram lines = false := by
+  refine ⟨_, rfl, by decide, by decide, by decide⟩
+
 end QipVerif.C10
